@@ -484,28 +484,66 @@ def all_configs():
     return out
 
 
+HAND_METHODS = ['read_x', 'read_y', 'read_r', 'read_t', 'crop', 'pad', 'mask', 'fill', 'spike_clip', 'remove_piston',
+                'remove_tiptilt', 'remove_power', 'recenter', 'latcal', 'strip_latcal', 'filter']
+
+
+def _norm_effs(txt):
+    import re
+    for pre in ('Model.C12.', 'Eff.', 'Val.', 'XY.', 'RT.', 'DataW.'):
+        txt = txt.replace(pre, '')
+    txt = re.sub(r'[()\[\],]', ' ', txt)
+    return [t.lstrip('.') for t in txt.split()]
+
+
+def translation_validation(ctx):
+    """the effect list the translator reads off the current source == the hand-written list the driver executes?
+    A difference is not a failure by itself (both sides are checked separately: the generated list by the kernel, the
+    hand list against the real object) but it is recorded and widens the history sweep."""
+    import re, sys, os, importlib
+    sys.path.insert(0, os.path.join(C.VERIF, 'tools'))
+    gen = importlib.import_module('gen_c12')
+    text, items = gen.generate(C.REPO)
+    got = {m.group(1): m.group(2) for m in re.finditer(r'^def eff_(\w+) : List Eff := (\[.*\])$', text, re.M)}
+    rep = C.lean_driver('C12', [f'effs {m}' for m in HAND_METHODS])
+    diffs = []
+    for m, hand in zip(HAND_METHODS, rep):
+        ctx.case('effect_table', {'method': m}, nontrivial=True)
+        if m not in got:
+            diffs.append(f'{m}: not translated')
+        elif _norm_effs(got[m]) != _norm_effs(hand):
+            diffs.append(f'{m}: source {" ".join(_norm_effs(got[m]))} | model {" ".join(_norm_effs(hand))}')
+    for d in diffs:
+        ctx.notes.append('effect list differs from the hand model: ' + d)
+    return diffs
+
+
 def correspondence(ctx):
     _impl()
+    if translation_validation(ctx):
+        ctx.widen = True
     run = Runner(ctx)
     cfgs = all_configs()
     order = list(ctx.rng.permutation(len(cfgs)))
     widen = 1 if ctx.widen else 0
     # exhaustive, prefix-shared
-    deep = [cfgs[k] for k in order[:ctx.scale(3 + widen, 8)]]
-    mid = [cfgs[k] for k in order[ctx.scale(3 + widen, 8):]]
+    ndeep = ctx.scale(6 + 2 * widen, 8)
+    deep = [cfgs[k] for k in order[:ndeep]]
+    mid = [cfgs[k] for k in order[ndeep:]]
     for cfg in deep:
         cfg = dict(cfg, data_seed=int(ctx.rng.integers(1, 10 ** 6)))
         _dfs(run, cfg, make_obj(cfg), [], [], ALPHABET, ctx.scale(3, 4))
-        run.flush()
+        if len(run.lines) > 200000:
+            run.flush()
     for cfg in mid:
         _dfs(run, cfg, make_obj(cfg), [], [], ALPHABET, ctx.scale(2, 3))
-        run.flush()
+    run.flush()
     if ctx.thorough:
         for cfg in deep[:4]:
             _dfs(run, cfg, make_obj(cfg), [], [], COORD_ALPHABET, 5)
             run.flush()
     # random long histories with value-level comparison at every step
-    nrand = ctx.scale(60, 1200)
+    nrand = ctx.scale(120, 1500)
     for _ in range(nrand):
         cfg = dict(cfgs[int(ctx.rng.integers(len(cfgs)))], data_seed=int(ctx.rng.integers(1, 10 ** 6)))
         L = int(ctx.rng.integers(4, 41))
@@ -521,7 +559,9 @@ def correspondence(ctx):
             reqs = reqs + r
             prefix = prefix + [op]
             run.queue_state(cfg, prefix, reqs, i)
-        run.flush()
+        if len(run.lines) > 100000:
+            run.flush()
+    run.flush()
     # report the shortest failing history first
     ctx.pred_failures.sort(key=lambda f: len(f['case'].get('ops', [])))
     ctx.disagreements.sort(key=lambda f: len(f['case'].get('ops', [])))
